@@ -109,6 +109,18 @@ def replay_file(path, repo):
             return 1
         print('not reproduced: the oracle %s finds no failing input on this tree' % inp['oracle'])
         return 0
+    if d.get('counterexample') and d['counterexample'].get('values'):
+        import kreplay
+        name = d['obligation'].replace('kani::', '')
+        r = kreplay.build_and_run(repo, name, [v['bytes'] for v in d['counterexample']['values']])
+        if r.get('replayed') and r.get('reproduced'):
+            print('REPRODUCED natively on the real code: harness %s fails at %s: %s' % (name, r.get('panic_at'), r.get('message')))
+            print('with the recorded values', [v.get('le_int') for v in d['counterexample']['values']])
+            return 1
+        if r.get('replayed'):
+            print('not reproduced: the harness runs to the end on this tree with the recorded values')
+            return 0
+        print('native replay not possible (%s); falling back to the recorded values' % r.get('reason'))
     if d.get('counterexample'):
         print('Kani counterexample (concrete playback values):')
         for v in d['counterexample'].get('values', []):
